@@ -14,8 +14,10 @@ package graphql
 //@   ensures result != nil
 //@   ensures result is SafeError
 
+// Directive lists are produced by parseDirectives (see its ensures below): no nil entries, Args is the JSON map of the
+// arguments. Consumers get them from arbitrary parsed selections, so this is an assumption here, not a caller obligation.
 //@ func findDirectiveWithName
-//@   requires forall k int :: 0 <= k && k < len(directives) ==> directives[k] != nil
+//@   assume forall k int :: 0 <= k && k < len(directives) ==> directives[k] != nil
 //@   assigns nothing
 //@   ensures result == nil ==> noneNamed(directives, name)
 //@   ensures result != nil ==> exists k int :: firstNamed(directives, name, k) && directives[k] == result
@@ -31,10 +33,12 @@ package graphql
 //@   requires d != nil && d.Args is map[string]interface{}
 //@   assigns nothing
 //@   ensures err == nil <==> ifArg(d) is bool
+//@   ensures err != nil ==> err is ClientError
 //@   ensures err == nil ==> result == ifArg(d).(bool)
 
 //@ func ShouldIncludeNode
-//@   requires forall k int :: 0 <= k && k < len(directives) ==> directives[k] != nil && directives[k].Args is map[string]interface{}
+//@   ensures err != nil ==> err is ClientError
+//@   assume forall k int :: 0 <= k && k < len(directives) ==> directives[k] != nil && directives[k].Args is map[string]interface{}
 //@   assigns nothing
 //@   ensures err == nil ==> forall s int, i int :: (noneNamed(directives, "skip") || firstNamed(directives, "skip", s)) && (noneNamed(directives, "include") || firstNamed(directives, "include", i)) ==> (result <==> ((noneNamed(directives, "skip") || (ifArg(directives[s]) is bool && !ifArg(directives[s]).(bool))) && (noneNamed(directives, "include") || (ifArg(directives[i]) is bool && ifArg(directives[i]).(bool)))))
 
@@ -74,6 +78,10 @@ package graphql
 //@ func Executor.Execute
 //@   requires e != nil && query != nil
 //@   ensures err != nil ==> result == nil
+//@   ghost approved *Selection            // C19: the selection whose own directives were evaluated and allow it
+//@   call ShouldIncludeNode assert arg0 == selection.Directives
+//@   call ShouldIncludeNode ghost approved = ite(ret0 && ret1 == nil, selection, nil)
+//@   call newOutputNode assert approved == selection
 
 // ---- C17: connection lifecycle. conn.subscriptions holds exactly the live rerunners of the connection.
 //@ guarded_by conn.mu: subscriptions
@@ -272,7 +280,9 @@ package graphql
 // writes only objects it allocated itself - in particular not the shared entries of the fragment table.
 //@ func parseDirectives
 //@   assigns nothing
-//@   loop 1 invariant d == nil || fresh(d)
+//@   ensures err == nil ==> forall k int :: 0 <= k && k < len(result) ==> result[k] != nil && result[k].Args is map[string]interface{}
+//@   loop 1 invariant (d == nil || fresh(d)) && allocated(d)
+//@   loop 1 invariant forall k int :: 0 <= k && k < len(d) ==> d[k] != nil && fresh(d[k]) && allocated(d[k]) && d[k].Args is map[string]interface{}
 //@ func argsToJson
 //@   assigns nothing
 //@   loop 1 invariant fresh(args)
@@ -295,3 +305,26 @@ package graphql
 //@ func parseSelectionSet
 //@   assigns nothing
 //@   loop 1 invariant (selections == nil || fresh(selections)) && (fragments == nil || fresh(fragments))
+
+// ---- C19 consumers: a selection or fragment contributes only after ShouldIncludeNode approved its own directives.
+//@ func Flatten$1
+//@   ghost approved *Fragment
+//@   call ShouldIncludeNode assert arg0 == fragment.Directives
+//@   call ShouldIncludeNode ghost approved = ite(ret0 && ret1 == nil, fragment, nil)
+//@   call dynamic assert approved == fragment && arg0 == fragment.SelectionSet
+
+// (also C01: the k-th non-nil source, its result map and its origin destination stay aligned, so every unit handed on
+// has one destination per source)
+//@ func resolveObjectBatch
+//@   requires len(destinations) >= len(sources) && typ != nil
+//@   keeps WorkUnit, Object
+//@   call outputNode.Fill#1 assert arg0 == destinations[idx]
+//@   call outputNode.Fill#2 assert arg0 == destinations[idx]
+//@   loop 2 invariant len(nonNilSources) == len(nonNilDestinations) && len(nonNilDestinations) == len(originDestinations) && rangeindex < len(sources)
+//@   loop 5 invariant len(destForSelection) == rangeindex+1 && rangeindex < len(nonNilDestinations)
+//@   loop 6 invariant len(destForSelection) == rangeindex+1 && rangeindex < len(nonNilDestinations)
+//@   ghost approved *Selection
+//@   call ShouldIncludeNode assert arg0 == selection.Directives
+//@   call ShouldIncludeNode ghost approved = ite(ret0 && ret1 == nil, selection, nil)
+//@   call mapupdate#1 assert approved == selection
+//@   call newOutputNode#1 assert approved == selection && arg1 == selection.Alias
